@@ -36,9 +36,33 @@ var (
 	repoDir  = envOr("VERIF_REPO", "/repo")
 )
 
+// scratchDirs lists scratch directories of this driver; os.Exit does not run defers, so every exit
+// path goes through quit().
+var scratchDirs []string
+
+func quit(code int) {
+	for _, d := range scratchDirs {
+		os.RemoveAll(d)
+	}
+	os.Exit(code)
+}
+
+// removeStaleScratch deletes scratch trees left in /var/tmp by drivers that were killed (older than two hours).
+func removeStaleScratch() {
+	ents, _ := os.ReadDir("/var/tmp")
+	for _, e := range ents {
+		if !strings.HasPrefix(e.Name(), "verif-build-") && !strings.HasPrefix(e.Name(), "verif-run-") && !strings.HasPrefix(e.Name(), "verif-replay-") {
+			continue
+		}
+		if fi, err := e.Info(); err == nil && time.Since(fi.ModTime()) > 2*time.Hour {
+			os.RemoveAll(filepath.Join("/var/tmp", e.Name()))
+		}
+	}
+}
+
 func fatal(code int, format string, a ...any) {
 	fmt.Fprintf(os.Stderr, "drive: "+format+"\n", a...)
-	os.Exit(code)
+	quit(code)
 }
 
 func goEnv() []string {
@@ -211,6 +235,8 @@ func ensureBinary(log io.Writer) string {
 		fatal(2, "mktemp: %v", err)
 	}
 	defer os.RemoveAll(scratch)
+	scratchDirs = append(scratchDirs, scratch)
+	removeStaleScratch()
 	env := goEnv()
 	if gc := goCache(); gc != "" {
 		env = append(env, "GOCACHE="+gc)
@@ -430,11 +456,11 @@ func main() {
 		for _, s := range sigs {
 			if s == r.Sig {
 				fmt.Printf("VIOLATION property=%s replay=%s\n", id, replay)
-				os.Exit(1)
+				quit(1)
 			}
 		}
 		fmt.Println("replay: expected violation did not recur")
-		os.Exit(0)
+		quit(0)
 	}
 
 	if budget == 0 {
@@ -460,6 +486,7 @@ func main() {
 		fatal(2, "mktemp: %v", err)
 	}
 	defer os.RemoveAll(runDir)
+	scratchDirs = append(scratchDirs, runDir)
 	replayDir := filepath.Join(verifDir, "replays")
 	os.MkdirAll(replayDir, 0o755)
 
@@ -693,7 +720,7 @@ func main() {
 	}
 	fmt.Printf("%s tier=%s seed=%d runs=%d nontrivial=%d distinct=%d steps=%d sim=%.0fs wall=%.0fs known=%d violations=%d\n",
 		id, tier, seed, agg.Runs, agg.Nontrivial, distinct, agg.Steps, simSeconds, wall, len(knownSeen), len(newViol))
-	os.Exit(exit)
+	quit(exit)
 }
 
 func replayOnce(bin, id, file string, trace bool) ([]string, uint64, error) {
@@ -794,6 +821,7 @@ func selftestDeterminism(ids []string) {
 	runs := int(envInt("VERIF_DET_RUNS", 40))
 	dir, _ := os.MkdirTemp("/var/tmp", "verif-det-")
 	defer os.RemoveAll(dir)
+	scratchDirs = append(scratchDirs, dir)
 	type result struct {
 		Runs, Mismatch int
 		First          string
@@ -841,6 +869,6 @@ func selftestDeterminism(ids []string) {
 	b, _ := json.MarshalIndent(out, "", " ")
 	os.WriteFile(filepath.Join(verifDir, "evidence", "selftest-determinism.json"), b, 0o644)
 	if bad {
-		os.Exit(1)
+		quit(1)
 	}
 }
